@@ -177,6 +177,13 @@ func (r *Run) Violation(key, what string, c any) {
 	if _, ok := r.viol[key]; ok {
 		return
 	}
+	if f := os.Getenv("VERIF_DUMP_VIOLATIONS"); f != "" {
+		// debugging aid: every violation key, one per line
+		if fh, err := os.OpenFile(f, os.O_APPEND|os.O_CREATE|os.O_WRONLY, 0o666); err == nil {
+			fmt.Fprintln(fh, key)
+			fh.Close()
+		}
+	}
 	// at most perClass keys per class (the key's first word) and maxKeys overall
 	class := key
 	if i := strings.IndexByte(key, ' '); i > 0 {
